@@ -405,6 +405,29 @@ func scenTwinSideBlocks(c *c9) {
 	c.mine(w[0])
 }
 
+// ---- a block that takes transactions of the mempool with it and is refused only when it is applied (a later transaction of
+// it has a nonce gap): the refusal must leave the mempool as it was - also for the next operations, which read it again
+func scenRefusedBlockWithMempoolTxs(c *c9) {
+	w := c.w.wallets
+	c.setupStaked(false)
+	t1 := tm(c.txTransfer(w[2], w[3].Addr, coin))
+	c.sub(t1)
+	t2 := tm(c.txTransfer(w[3], w[2].Addr, coin))
+	c.sub(t2)
+	t3 := tm(c.txTransfer(w[4], w[2].Addr, coin))
+	c.sub(t3)
+	// another miner's block: t1, t3 and a transfer of w0 whose nonce skips one
+	bad := &transaction.Transaction{Version: transaction.TX_VERSION_TRANSFER, Nonce: c.nonceOf(w[0]) + 1,
+		Data: &transaction.Transfer{Outputs: []transaction.Output{{Recipient: w[1].Addr, Amount: coin}}}}
+	bx, bm := c.finish(bad, w[0], 0)
+	blk := c.buildOn(c.top(), []*transaction.Transaction{t1.t, t3.t, bx}, []TxMeta{t1.m, t3.m, bm}, 0, w[1].Addr)
+	c.addBuilt(blk) // refused
+	c.sub(t1)       // known transaction: silently ignored; the mempool is read again
+	c.block(0, w[1], nil)
+	c.mine(w[4]) // the node's own template: t1, t2, t3
+	c.mine(w[4])
+}
+
 // ---- expiry
 func scenExpiry(c *c9) {
 	w := c.w.wallets
